@@ -16,7 +16,7 @@ from allmydata.interfaces import ExistingChildError
 from allmydata.monitor import Monitor
 from allmydata.immutable.upload import FileHandle
 from allmydata.mutable.publish import MutableFileHandle
-from allmydata.mutable.common import MODE_READ
+from allmydata.mutable.common import MODE_READ, NotWriteableError
 from allmydata.util import log, base32
 from allmydata.util.encodingutil import quote_output
 from allmydata.blacklist import (
@@ -54,6 +54,10 @@ class ReplaceMeMixin:
         file_format = get_format(req, "CHK")
         mutable_type = get_mutable_type(file_format)
         if mutable_type is not None:
+            if self.parentnode.is_readonly():
+                # refuse before creating the file, as add_file does for
+                # immutable uploads: nothing may be left on the grid
+                return defer.fail(NotWriteableError())
             data = MutableFileHandle(req.content)
             keypair = get_keypair(req)
             d = client.create_mutable_file(data, version=mutable_type, unique_keypair=keypair)
@@ -96,6 +100,8 @@ class ReplaceMeMixin:
         file_format = get_format(req, "CHK")
         contents = req.fields["file"]
         if file_format in ("SDMF", "MDMF"):
+            if self.parentnode.is_readonly():
+                return defer.fail(NotWriteableError())
             mutable_type = get_mutable_type(file_format)
             uploadable = MutableFileHandle(contents.file)
             keypair = get_keypair(req)
